@@ -249,7 +249,16 @@ func appendHostMappedAddrs(
 }
 
 func (a *Agent) applyHostRewriteForUDPMux(candidateIPs []net.IP, udpAddr *net.UDPAddr) ([]net.IP, bool) {
-	mappedIPs, matched, mode, err := a.addressRewriteMapper.findExternalIPs(CandidateTypeHost, udpAddr.IP.String(), "")
+	// Rules may be scoped to an interface: look up the one the mux address sits on (the mux only
+	// knows addresses), as the interface path does.
+	iface := ""
+	if a.net != nil {
+		if _, ifaces, err := localInterfaces(a.net, nil, nil, nil, true); err == nil {
+			iface = findIfaceForIP(ifaces, udpAddr.IP)
+		}
+	}
+
+	mappedIPs, matched, mode, err := a.addressRewriteMapper.findExternalIPs(CandidateTypeHost, udpAddr.IP.String(), iface)
 	if err != nil {
 		a.log.Warnf("Address rewrite mapping is enabled but failed for %s: %v", udpAddr.IP.String(), err)
 
